@@ -66,6 +66,21 @@ class C01(Prop):
                         fb[L - 1] = 0x16
                     tail = list(G.enc(k, 0x56, 0x45, 48, 5, b"")) if rng.random() < 0.5 else []
                     cases.append({"kind": "short-length:%d" % L, "stream": fb + tail, "chunks": chunking(rng, len(fb + tail)) if rng.random() < 0.5 else None})
+        # frames for ANOTHER recipient (and frames from unknown senders / of unknown kinds) whose payload embeds the complete image of a
+        # valid frame for us, followed by a genuine frame; arriving in two pieces cut at every offset, the second piece while the
+        # reader is already working on the first
+        for _ in range(12 if tier == "quick" else 120):
+            k = rng.choice(kinds)
+            inner = G.enc(k, 0x56, 0x45, 48, 5, G.rand_payload(rng, rng.choice([0, 1, 4])))
+            pad = G.rand_payload(rng, rng.choice([0, 1, 3]))
+            outer_kind = rng.choice(["foreign", "unknown-sender", "unknown-kind"])
+            rc, sd, kd = (0x45, 0x51, rng.choice(kinds)) if outer_kind == "foreign" else \
+                         (0x56, 0x33, rng.choice(kinds)) if outer_kind == "unknown-sender" else (0x56, 0x45, 0x99)
+            outer = G.enc(kd, rc, sd, 48, 5, pad + inner + G.rand_payload(rng, rng.choice([0, 2])))
+            genuine = G.enc(rng.choice(kinds), 0x56, 0x45, 48, 5, b"")
+            st = outer + genuine
+            for cut in range(1, len(outer)):
+                cases.append({"kind": "embedded-in-" + outer_kind, "stream": list(st), "chunks": [[cut, rng.choice([1, 3, 6])], [len(st) - cut, 0]]})
         # frame-shaped runs whose FIRST byte is not the delimiter (checksum compensated) while a 0x68 sits elsewhere in the
         # seven header bytes (length low byte, sender-type or version byte), arriving whole or in chunks
         for k in kinds:
@@ -105,7 +120,14 @@ class C01(Prop):
         return cases
 
     def run_impl(self, case):
-        return reader_impl.read_all(bytes(case["stream"]), case.get("chunks"))
+        b = reader_impl.read_all(bytes(case["stream"]), case.get("chunks"))
+        if case.get("chunks"):
+            # "every fragmentation of the stream into arrival chunks": what the reader does with the pieces is what it does with
+            # the whole (a relation between two runs of the implementation)
+            whole = reader_impl.read_all(bytes(case["stream"]), None)
+            if whole != b:
+                b = b + [[0, ["other", "differs-from-unfragmented:" + repr(whole)[:300]]]]
+        return b
 
     def model_many(self, cases):
         return model.call_many("read_all", [bytes(c["stream"]) for c in cases])
